@@ -492,7 +492,7 @@ func judge(run *ev.Run, st *stats, p *program, r *progResult, nb *nativeBatch) {
 		}
 		run.Violation(sig, id, fmt.Sprintf("%s.%s%s: %s", p.pkg, cs.Fn, argsStr(cs.Args), detail), wit(map[string]any{
 			"function": cs.Fn, "args": cs.Args, "call_index": ci, "go": natStr(n),
-			"bare_vm": map[string]any{"fault": b.fault, "stack_bottom_to_top": b.stack, "stale_items_at_catch": b.leftover, "catches": b.catches},
+			"bare_vm":       map[string]any{"fault": b.fault, "stack_bottom_to_top": b.stack, "stale_items_at_catch": b.leftover, "catches": b.catches},
 			"contract_call": map[string]any{"fault": c.fault, "stack": c.stack},
 		}))
 	}
